@@ -96,9 +96,12 @@ Section Safe.
   (* C14 on counters (non-raising managers): pipeline_start is the first callback of manager 0 and happens once; pipeline_complete
      happens at most once per manager, and once it has happened every helper task is finished or cancelled (so nothing but the
      remaining pipeline_complete callbacks can follow, by C13); a node gets at most one on_node_start per execution and at
-     most one on_node_complete per attempt of the reference *)
-  Definition ref_executions (i : nat) : nat :=
-    length (filter (fun x => Nat.eqb (x_node x) i && negb (Nat.eqb (x_attempts x) 0)) ref_log).
+     most one on_node_complete per attempt of the reference (plus one for a forced default) *)
+  (* executions of node i in the reference: ordinary ones and the forced get_default after the iterations of a recurrent
+     subgraph are exhausted (an execution without body invocation: it still reports on_node_start / on_node_complete) *)
+  Definition ref_executions (i : nat) : nat := length (filter (fun x => Nat.eqb (x_node x) i) ref_log).
+  Definition ref_forced_defaults (i : nat) : nat :=
+    length (filter (fun x => Nat.eqb (x_node x) i && Nat.eqb (x_attempts x) 0) ref_log).
   Definition helpers_over (st : mstate) : bool :=
     forallb (fun t => negb (t_helper t) || match t_state t with TDone _ | TReady _ (SThrow XCancelled) => true | _ => false end) (st_tasks st).
   Definition safe_events (st : mstate) : bool :=
@@ -106,7 +109,7 @@ Section Safe.
                        | CEmit m EvPipelineStart None => Nat.leb (snd ck) 1
                        | CEmit m EvPipelineComplete None => Nat.leb (snd ck) 1 && helpers_over st
                        | CEmit m EvNodeStart (Some (KN i)) => Nat.leb (snd ck) (ref_executions i)
-                       | CEmit m EvNodeComplete (Some (KN i)) => Nat.leb (snd ck) (ref_invocations i)
+                       | CEmit m EvNodeComplete (Some (KN i)) => Nat.leb (snd ck) (ref_invocations i + ref_forced_defaults i)
                        | CEmit _ _ _ => false
                        | _ => true
                        end) (st_ctrs st)
